@@ -20,7 +20,9 @@ import (
 	"sync"
 	"time"
 
+	"github.com/btcsuite/btcd/btcutil/v2"
 	"github.com/btcsuite/btcd/btcutil/v2/gcs"
+	"github.com/btcsuite/btcd/btcutil/v2/gcs/builder"
 	"github.com/btcsuite/btcd/chaincfg/v2"
 	"github.com/btcsuite/btcd/chainhash/v2"
 	"github.com/btcsuite/btcd/wire/v2"
@@ -34,6 +36,14 @@ import (
 )
 
 const bigN = 3300
+
+// unusual output scripts planted in the big chain (next to the random ones)
+var bigForce = map[int][]string{
+	150: {"unparse"}, 777: {"big"}, 1000: {"unparse"}, 1001: {"bigbad"}, 1234: {"unparse", "big"},
+	1999: {"unparse"}, 2000: {"big"}, 2345: {"unparse", "cb-unparse"}, 2999: {"big"}, 3100: {"big", "empty", "unparse"},
+}
+
+var bigPlanted = []int{150, 777, 1000, 1001, 1234, 1999, 2000, 2345, 2999, 3100}
 
 // ---------------------------------------------------------------------
 // Case specification (what hist-<id>.json holds; generated from (seed, id)
@@ -54,6 +64,14 @@ type arrivalSpec struct {
 	Mode string `json:"mode"` // own|short1|long1|wrongprev|wrongstop|wrongtype|empty
 }
 
+// forceOut makes the block at Height contain an output script (or a witness
+// input) of an unusual kind: unparse|big|bigbad|empty|opretx|p2tr|nonstd,
+// cb-<kind> for an output of the coinbase, wit-<wpkh|wsh|nested|tr|badsig>.
+type forceOut struct {
+	Height int    `json:"height"`
+	Kind   string `json:"kind"`
+}
+
 type spec struct {
 	ID     int    `json:"id"`
 	Seed   int64  `json:"seed"`
@@ -68,6 +86,8 @@ type spec struct {
 	Peers     []*peerSpec  `json:"peers,omitempty"`
 	Honest    []int64      `json:"honest,omitempty"`
 	BlockFail []int        `json:"block_fail,omitempty"`
+	// U: unusual scripts forced into blocks of the case's chain
+	Force []forceOut `json:"force,omitempty"`
 	// R: hard-coded checkpoint at height HardAt: "" none, "true", "false"
 	HardAt   int    `json:"hard_at,omitempty"`
 	HardKind string `json:"hard_kind,omitempty"`
@@ -111,7 +131,7 @@ func (f *fixtures) setup(base string) {
 		panic(err)
 	}
 	f.gfh = gf
-	f.big = newChain(rand.New(rand.NewSource(20260925)), bigN, gf, false)
+	f.big = newChain(rand.New(rand.NewSource(20260925)), bigN, gf, false, 77, bigForce)
 	f.bigIn = newInterner(nil, 1000000)
 	f.bigIn.toks(f.big.hashes)
 	f.bigIn.toks(f.big.fhashes)
@@ -419,7 +439,11 @@ func setupWorld(sp *spec, ch *chainT, in *interner) *world {
 func runU(sp *spec) (res result) {
 	res.sp = *sp
 	r := rand.New(rand.NewSource(sp.Seed*13 + int64(sp.ID)))
-	ch := newChain(r, sp.Tip, fx.gfh, true)
+	force := map[int][]string{}
+	for _, f := range sp.Force {
+		force[f.Height] = append(force[f.Height], f.Kind)
+	}
+	ch := newChain(r, sp.Tip, fx.gfh, true, sp.Seed*13+int64(sp.ID), force)
 	in := newInterner(nil, 1000)
 	in.toks(ch.hashes)
 	in.toks(ch.fhashes)
@@ -466,7 +490,11 @@ func lieSig(sp *spec) string {
 	for _, p := range sp.Peers {
 		k := p.HdrMode[:1]
 		for _, l := range p.Lies {
-			k += l.Kind[:2]
+			if code, ok := lieCodes[l.Kind]; ok {
+				k += code
+			} else {
+				k += l.Kind[:2]
+			}
 		}
 		if p.CpMode != "" && p.CpMode != "own" && p.CpMode != "true" {
 			k += "c" + p.CpMode[:1]
@@ -486,8 +514,35 @@ func hasLiar(sp *spec) bool {
 	return false
 }
 
-var consistentKinds = []string{fOmit, fOmit, fOtherKey, "inconsistent", "silent", "omit-inconsistent", "zero"}
-var outOfClassKinds = []string{fExtra, fOpret}
+var consistentKinds = []string{fOmit, fOmit, fOmitX, fOmitX, fOmitCb, fOtherKey, "inconsistent", "silent", "omit-inconsistent", "zero"}
+var outOfClassKinds = []string{fExtra, fOpret, fOmitPrev}
+var lieCodes = map[string]string{fOmit: "om", fOmitX: "ox", fOmitCb: "oc", fOmitPrev: "op", "omit-inconsistent": "oi"}
+
+// duelPeers: nh honest peers and nl liars that all lie at height h with a
+// filter omitting an output script (block-refutable), colluding (same
+// filter) or not.
+func duelPeers(r *rand.Rand, nh, nl, h int, kind string, collude bool) ([]*peerSpec, []int64) {
+	var peers []*peerSpec
+	var honest []int64
+	salt := 0
+	if collude {
+		salt = 40 + r.Intn(50)
+	}
+	for i := 0; i < nh+nl; i++ {
+		p := &peerSpec{ID: int64(i + 1), HdrMode: "ok"}
+		if i < nh {
+			honest = append(honest, p.ID)
+		} else {
+			p.Lies = []lie{{Height: h, Kind: kind, Salt: salt}}
+		}
+		peers = append(peers, p)
+	}
+	r.Shuffle(len(peers), func(i, j int) { peers[i], peers[j] = peers[j], peers[i] })
+	return peers, honest
+}
+
+var duelKinds = []string{fOmitX, fOmitX, fOmitX, fOmit, fOmitCb}
+var duelForce = []string{"unparse", "unparse", "big", "bigbad", "nonstd", "p2tr"}
 
 func genPeers(r *rand.Rand, lo, hi int, inClass bool) ([]*peerSpec, []int64) {
 	n := 2 + r.Intn(5)
@@ -552,6 +607,19 @@ func genU(id int, seed int64, r *rand.Rand) *spec {
 	}
 	inClass := r.Intn(10) < 7
 	sp.Peers, sp.Honest = genPeers(r, sp.FTip+1, sp.Tip, inClass)
+	if r.Intn(4) == 0 && sp.FTip < sp.Tip {
+		// duel over an unusual output script: one or two honest peers
+		// against two to four liars whose (self-consistent) filter omits an
+		// unparseable / oversized / coinbase output script of the same block
+		h := sp.FTip + 1 + r.Intn(sp.Tip-sp.FTip)
+		kind := duelKinds[r.Intn(len(duelKinds))]
+		sp.Force = []forceOut{{Height: h, Kind: duelForce[r.Intn(len(duelForce))]}}
+		if kind == fOmitCb && r.Intn(2) == 0 {
+			sp.Force = append(sp.Force, forceOut{Height: h, Kind: "cb-unparse"})
+		}
+		sp.Peers, sp.Honest = duelPeers(r, 1+r.Intn(2), 2+r.Intn(3), h, kind, r.Intn(3) != 0)
+		return sp
+	}
 	if r.Intn(6) == 0 && sp.FTip < sp.Tip {
 		// out-of-class duel: an even number of responders, the liars serve
 		// old-style filters (OP_RETURNs indexed) or filters with an extra
@@ -754,6 +822,26 @@ func genR(id int, seed int64, r *rand.Rand) *spec {
 		case k < 6 && !inClass:
 			p.CpMode = "absent"
 		}
+	}
+	if r.Intn(4) == 0 {
+		// duel at a height of the big chain with a planted unusual script
+		var cands []int
+		for _, h := range bigPlanted {
+			if h <= L*1000 {
+				cands = append(cands, h)
+			}
+		}
+		h := cands[r.Intn(len(cands))]
+		kind := duelKinds[r.Intn(len(duelKinds))]
+		sp.Peers, sp.Honest = duelPeers(r, 1+r.Intn(2), 2+r.Intn(3), h, kind, r.Intn(3) != 0)
+		for _, p := range sp.Peers {
+			p.CpMode = "own"
+		}
+		sp.BlockFail, sp.StoreLieFrom = nil, 0
+		if sp.FTip >= h {
+			sp.FTip = r.Intn(h)
+		}
+		return sp
 	}
 	if r.Intn(5) == 0 {
 		sp.HardAt = 1000 * (1 + r.Intn(L))
@@ -1008,7 +1096,7 @@ func auxRows(seed int64, n int) []string {
 	}
 	for i := 0; i < n; i++ {
 		in := newInterner(fx.bigIn, 10000000)
-		switch i % 6 {
+		switch i % 8 {
 		case 0: // verifyCheckpoint
 			k := r.Intn(5)
 			var hs []*chainhash.Hash
@@ -1093,16 +1181,22 @@ func auxRows(seed int64, n int) []string {
 			idx := r.Intn(4)
 			rows = append(rows, fmt.Sprintf("CA (AMismatch %s %d %s)", c.List(terms), idx,
 				c.Bool(neutrino.VerifC03CheckForCFHeaderMismatch(hm, idx))))
-		default: // resolveFilterMismatchFromBlock
+		case 4, 5: // resolveFilterMismatchFromBlock
 			h := 1 + r.Intn(bigN)
+			for k := 0; k < 8 && len(fx.big.blocks[h].Transactions) < 2; k++ {
+				h = 1 + r.Intn(bigN)
+			}
+			if r.Intn(4) == 0 {
+				h = bigPlanted[r.Intn(len(bigPlanted))]
+			}
 			b := fx.big.blocks[h]
 			np := 1 + r.Intn(6)
 			fm := map[string]*gcs.Filter{}
 			var fl, orc []string
 			seen := map[int64]bool{}
-			kinds := []string{fTrue, fTrue, fTrue, fOmit, fExtra, fOpret, fOtherKey}
+			kinds := []string{fTrue, fTrue, fTrue, fOmit, fOmitX, fOmitCb, fOmitPrev, fExtra, fOpret, fOtherKey}
 			for p := 1; p <= np; p++ {
-				f := doctored(kinds[r.Intn(len(kinds))], b, fx.big.filters[h], r.Intn(3))
+				f := fx.big.doctored(kinds[r.Intn(len(kinds))], h, r.Intn(3))
 				fm[fmt.Sprintf("10.0.0.%d:18555", p)] = f
 				ft, row := oracleRow(in, f, b)
 				if !seen[ft] {
@@ -1127,7 +1221,31 @@ func auxRows(seed int64, n int) []string {
 				sort.Slice(ids, func(i, j int) bool { return ids[i] < ids[j] })
 				exp = c.Some(zlist(ids))
 			}
-			rows = append(rows, fmt.Sprintf("CA (AFromBlock %s %s %d %s)", c.List(orc), c.List(fl), th, exp))
+			rows = append(rows, fmt.Sprintf("CA (AFromBlock %s %s %s %d %s)", absOf(b).term, c.List(orc), c.List(fl), th, exp))
+		default: // VerifyBasicBlockFilter on blocks full of unusual scripts
+			var prev chainhash.Hash
+			r.Read(prev[:])
+			b := mkBlock(r, prev, 1+r.Intn(5000), r.Intn(4), true)
+			var force []string
+			for k := r.Intn(4); k > 0; k-- {
+				all := []string{"unparse", "big", "bigbad", "empty", "opretx", "p2tr", "nonstd", "opret",
+					"cb-unparse", "cb-big", "cb-opret", "cb-empty", "wit-wpkh", "wit-wsh", "wit-nested", "wit-tr", "wit-badsig"}
+				force = append(force, all[r.Intn(len(all))])
+			}
+			prevs := decorate(b, r, true, force)
+			truth, err := builder.BuildBasicFilter(b, prevs)
+			if err != nil {
+				panic(err)
+			}
+			kinds := []string{fTrue, fTrue, fOmit, fOmitX, fOmitX, fOmitCb, fOmitPrev, fExtra, fOpret, fOtherKey, fEmpty}
+			f := doctoredB(kinds[r.Intn(len(kinds))], b, prevs, truth, r.Intn(5))
+			n, verr := neutrino.VerifyBasicBlockFilter(f, btcutil.NewBlock(b))
+			exp := "None"
+			if verr == nil {
+				exp = c.Some(c.Z(int64(n)))
+			}
+			a := absOf(b)
+			rows = append(rows, fmt.Sprintf("CA (AVerifyFilter %s %s %s)", a.term, a.matched(f, b), exp))
 		}
 	}
 	// ValidateCFHeader through resolveConflict is covered by family R; the
@@ -1195,9 +1313,9 @@ func main() {
 	defer os.RemoveAll(base)
 	fx.setup(base)
 
-	nS, nU, nR, nC, nA := 14, 22, 16, 8, 60
+	nS, nU, nR, nC, nA := 14, 26, 18, 8, 80
 	if a.Tier == "thorough" {
-		nS, nU, nR, nC, nA = 300, 500, 300, 120, 600
+		nS, nU, nR, nC, nA = 300, 600, 360, 120, 800
 	}
 	var specs []*spec
 	if a.Replay != "" {
